@@ -41,7 +41,7 @@ func fullSafety(r *c02gen.BRun, when string) *world.Problem {
 	head := f.DA.Head()
 	hdrAt := map[int][]uint64{}
 	dataAt := map[int][]uint64{}
-	for _, pl := range r.Sc.Placements {
+	for _, pl := range r.Placements() {
 		if pl.DAHeight > head {
 			continue
 		}
